@@ -400,8 +400,15 @@ def resolve_macros(
     up to the specified recursion depth.
     @return: tuple of the queue of ops, and the labels' dictionary
     """
-    preprocessor_data = PreprocessorData(memory_width, macros, max_recursion_depth)
-    resolve_macro_aux(preprocessor_data, INITIAL_MACRO_NAME, INITIAL_ARGS, INITIAL_LABELS_PREFIX)
+    python_recursion_limit = sys.getrecursionlimit()
+    try:
+        preprocessor_data = PreprocessorData(memory_width, macros, max_recursion_depth)
+        resolve_macro_aux(preprocessor_data, INITIAL_MACRO_NAME, INITIAL_ARGS, INITIAL_LABELS_PREFIX)
 
-    preprocessor_data.finish(show_statistics)
-    return preprocessor_data.get_result_ops_and_labels()
+        preprocessor_data.finish(show_statistics)
+        return preprocessor_data.get_result_ops_and_labels()
+    finally:
+        # PreprocessorData sets python's recursion-limit for the macro expansion only. restore it, so that this
+        #  call's max_recursion_depth doesn't leak into later assemble() calls of the same process
+        #  (their parsing stage runs before they set their own limit).
+        sys.setrecursionlimit(python_recursion_limit)
